@@ -82,6 +82,18 @@ def run(ctx):
         ev += [{"e": "tick", "g": 0, "t": 5 * (mr + 3) + 5 * j} for j in range(1, mr + 3)]
         stim.append({"t": len(stim) + 1, "p": 4, "keepAlive": True, "maxRetries": mr, "events": ev, "fast": True})
         nallans += 1
+    # a ping that cannot be written (tick with g = 1) while retries remain: unanswered ping, write error, answered ping, then silence
+    for mr in (2, 3):
+        for pos in range(1, mr + 1):
+            ev = []
+            for j in range(1, mr + 1):
+                ev.append({"e": "tick", "g": 1 if j == pos else 0, "t": 5 * j})
+            # the last ping before the limit is answered (if it was written): the peer is alive
+            npings = mr - 1 if pos <= mr else mr
+            if pos != mr:
+                ev.append({"e": "pong", "g": npings, "t": 5 * mr + 1})
+            ev += [{"e": "tick", "g": 0, "t": 5 * mr + 1 + 5 * j} for j in range(1, mr + 3)]
+            stim.append({"t": len(stim) + 1, "p": 4, "keepAlive": True, "maxRetries": mr, "events": ev, "wfail": True})
     ctx.cov["histories_every_ping_answered"] = nallans
     # every 5th history (thorough: every 2nd) and all directed ones also against a real udp server on a loopback socket
     for k, s_ in enumerate(stim):
@@ -93,6 +105,8 @@ def run(ctx):
         s_["pipelined"] = (not s_["keepAlive"]) and k % 2 == 0
     for s_ in stim:
         s_.setdefault("fast", False)
+        s_.setdefault("wfail", False)
+    ctx.cov["histories_with_a_ping_that_cannot_be_written"] = sum(1 for s_ in stim if s_["wfail"])
     for k, s_ in enumerate(stim):
         s_["crowd"] = bool(s_.get("srv")) and k % 2 == 0
     ctx.cov["histories_with_other_peers_coming_and_going"] = sum(1 for s_ in stim if s_["crowd"])
